@@ -167,7 +167,9 @@ def run(chk, repo: Repo):
     for mod, cls in (("cuqi/distribution/_lmrf.py", "LMRF"), ("cuqi/distribution/_cmrf.py", "CMRF")):
         ci = repo.cls(f"{mod}:{cls}")
         f = repo.method(ci, "__init__")[1]
-        ok = "self._diff_op=FirstOrderFiniteDifference(num_nodes=num_nodes,bc_type=bc_type)" in _norm(f)
+        from .common import assigned_values as _av, KwCanon as _KC, expected_text as _et
+        kcf = _KC().add("FirstOrderFiniteDifference", repo.method(fo, "__init__")[1])
+        ok = _av(repo, ci, f, "self._diff_op", stop=frozenset({"num_nodes"}), kc=kcf) == [_et("FirstOrderFiniteDifference(num_nodes=num_nodes,bc_type=bc_type)", kcf)]
         chk.add("C20-R3", f"{ci.qual}.__init__", ok, site(repo, f), "bc_type forwarded unchanged to the first-order operator", f"{cls} does not forward bc_type to its operator", f)
     for ci in (fo, so):
         f = ci.methods["_create_diff_matrix"]
@@ -176,10 +178,13 @@ def run(chk, repo: Repo):
     # R4
     t = _norm(ginit)
     problems = []
-    for pat, msg in (("self._prec_op=PrecisionFiniteDifference(num_nodes=num_nodes,bc_type=bc_type,order=order)", "precision operator built from (num_nodes, bc_type, order)"),
-                     ("self._diff_op=self._prec_op._diff_op", "difference operator is the precision operator's own")):
-        if pat not in t:
-            problems.append(f"{msg} (`{pat}` not found)")
+    from .common import assigned_values, KwCanon, expected_text
+    kcp = KwCanon().add("PrecisionFiniteDifference", repo.method(pf, "__init__")[1])
+    for fld, want, msg, stop_ in (("self._prec_op", "PrecisionFiniteDifference(num_nodes=num_nodes,bc_type=bc_type,order=order)", "precision operator built from (num_nodes, bc_type, order)", {"num_nodes"}),
+                                  ("self._diff_op", "self._prec_op._diff_op", "difference operator is the precision operator's own", {"self._prec_op"})):
+        got = assigned_values(repo, gm, ginit, fld, stop=frozenset(stop_), kc=kcp)
+        if got != [expected_text(want, kcp)]:
+            problems.append(f"{msg} (`{fld}` is {got})")
     # every value stored in the factor / log-determinant / eigenvalue fields, with temporaries and one-line helpers resolved
     exg = Expander(canon_fn(repo, gm, ginit, 2))
     STOP = frozenset({"self._chol", "self._L_eigval", "self._rank", "self.dim", "self._prec_op"})
